@@ -48,12 +48,16 @@ def check(rng, deep):
     T = 6
     fixtures = [('sim', m.sim, dict(m.SIM_CALIB, min_a=-0.5), 'r', ['r', 'w', 'beta']),
                 ('labor', m.labor, dict(m.LAB_CALIB, amin=-0.75), 'r', ['r', 'w', 'Div', 'vphi']),
-                ('twoasset', m.twoasset, m.TWO_CALIB, 'rb', ['rb', 'ra', 'tax', 'w'])]
-    for name, blk, calib, rname, inputs in fixtures:
+                ('twoasset', m.twoasset, m.TWO_CALIB, 'rb', ['rb', 'ra', 'tax', 'w']),
+                # small / coarse asset grids on which patient high-income households want to save beyond the top grid point
+                ('sim', m.sim, dict(m.SIM_CALIB, max_a=5.0, n_a=12, beta=0.978, r=0.02), 'r', ['r', 'w']),
+                ('labor', m.labor, dict(m.LAB_CALIB, amax=4.0, nA=12, beta=0.982), 'r', ['r', 'w'])]
+    for fi, (name, blk, calib, rname, inputs) in enumerate(fixtures):
         ss = blk.steady_state(calib)
         d = H.full_dict(blk, ss)
-        inp = dict(kind='budget', block=name)
+        inp = dict(kind='budget', block=name, grid='small' if fi >= 3 else 'standard')
         n += 1
+        top_mass = float(np.sum(d['D'][..., -1])) if name != 'twoasset' else 0.0
         pw = np.abs(pointwise(name, d)).max()
         if pw > 1e-9:
             C.push(out, dict(what='the backward function violates the household budget constraint at some grid point', input=inp, observed=float(pw), signature=dict(op='pointwise', block=name)))
@@ -97,6 +101,8 @@ def check(rng, deep):
                 break
             prevA = {'a': v['A'], 'b': v.get('B')}
         # Jacobian columns: d(C + A (+B + CHI)) - d(income) - d[(1+r) A(-1)] = 0
+        if fi >= 3:
+            continue            # on the deliberately coarse grids the difference quotients are dominated by kinks: levels only
         Tj = 8
         outs = ['C', 'A'] + (['B', 'CHI'] if name == 'twoasset' else []) + (['NE'] if name == 'labor' else [])
         for i in inputs:
@@ -130,7 +136,7 @@ def oracle(ctx, hints, broken):
         import traceback
         viol, n = [dict(what=f'C13 oracle raised {type(ex).__name__}: {ex}', input=dict(kind='raise', trace=traceback.format_exc()[-800:]), signature=dict(op='raise'))], 1
     return dict(evaluations=n, violations=viol,
-                rule='hh_sim, hh_labor (both with a NEGATIVE borrowing limit) and hh_twoasset on small grids: pointwise budget residual, aggregate identity in steady state '
+                rule='hh_sim, hh_labor (both with a NEGATIVE borrowing limit) and hh_twoasset on small grids, plus hh_sim and hh_labor on coarse grids whose top point binds: pointwise budget residual, aggregate identity in steady state '
                      'and at every date of a nonlinear impulse (assets carried in by Dbeg_t), Jacobian-column identity for prices/taxes/preferences incl. direct terms, '
                      'one- and two-sided differentiation and two step sizes')
 
